@@ -205,6 +205,15 @@ class Unknown(V):
 
 UNIT = Const(())
 
+STD_CONSTS = {}
+for _t, _bits in (("u8", 8), ("u16", 16), ("u32", 32), ("u64", 64), ("u128", 128)):
+    STD_CONSTS["core::num::<impl %s>::MAX" % _t] = (1 << _bits) - 1
+    STD_CONSTS["core::num::<impl %s>::MIN" % _t] = 0
+    STD_CONSTS["core::num::<impl %s>::BITS" % _t] = _bits
+for _t, _bits in (("i8", 8), ("i16", 16), ("i32", 32), ("i64", 64)):
+    STD_CONSTS["core::num::<impl %s>::MAX" % _t] = (1 << (_bits - 1)) - 1
+    STD_CONSTS["core::num::<impl %s>::MIN" % _t] = -(1 << (_bits - 1))
+
 TRANSPARENT = {
     "as_ref", "as_slice", "as_str", "as_bytes", "deref", "borrow", "clone", "to_vec", "to_owned", "into", "iter",
     "into_iter", "as_deref", "copied", "cloned", "as_mut", "to_string", "as_mut_slice", "into_contents", "contents",
@@ -488,6 +497,8 @@ class Interp:
         v = core(v)
         if isinstance(v, Const):
             return v.v
+        if isinstance(v, Def) and v.path in STD_CONSTS:
+            return STD_CONSTS[v.path]
         if isinstance(v, Def) and ("Const" in v.dk or "Static" in v.dk):
             cv = self.const_value(v.path)
             if cv is None:
@@ -509,6 +520,10 @@ class Interp:
                     return None
         if isinstance(v, CallV) and v.callee.endswith("ObjectIdentifier::from_slice") and v.args:
             return self.concrete(v.args[0])
+        if isinstance(v, CallV) and v.callee in ("std::convert::From::from", "std::convert::Into::into") and len(v.args) == 1:
+            c = self.concrete(v.args[0])
+            if isinstance(c, int) and not isinstance(c, bool):
+                return c
         return None
 
     # -- formulas -----------------------------------------------------------------
